@@ -48,6 +48,9 @@ def literal_nodes():
     nodes += [{"n": "StringValueNode", "v": s} for s in strs]
     nodes += [{"n": "BooleanValueNode", "v": True}, {"n": "BooleanValueNode", "v": False}, {"n": "EnumValueNode", "v": "A"},
               {"n": "EnumValueNode", "v": "true"}]
+    # nodes as the SDL parser builds them for default values: the number itself, not its lexeme
+    nodes += [{"n": "IntValueNode", "v": enc(i)} for i in (0, 1, 12, -12, 2147483647, 2147483648, -2147483649, 9007199254740993, 10**400)]
+    nodes += [{"n": "FloatValueNode", "v": enc(f)} for f in (1.5, -0.0, 12.0, 1e3, 0.1, 2147483648.0)]
     return nodes
 
 def random_values(rng, n):
@@ -161,7 +164,11 @@ def law_literal(scalar, sc, node_w, undef):
     if kind not in natural:
         return None if lit is undef else f"{scalar} accepts a literal of kind {kind}"
     if kind in ("IntValueNode", "FloatValueNode"):
-        jv = json.loads(lex)
+        if not isinstance(lex, str):            # SDL-style node: carries the number itself
+            jv = dec(lex); lex = repr(jv)
+            if scalar == "Float" and isinstance(jv, int) and abs(jv) > 2**53: return None      # float(int) rounds / overflows: not a JSON-equal pair
+        else:
+            jv = json.loads(lex)
     else:
         jv = lex
     if scalar == "ID" and kind == "IntValueNode" and str(jv) != lex: return None      # non-canonical lexeme (-0)
@@ -208,6 +215,7 @@ def run(tier, seed):
     b = fw.build("C10", thorough=(tier == "thorough"))
     real = real_scalars()
     nrand = 4000 if tier == "quick" else 120000
+    if b.get("golden_fallback"): nrand *= 5      # the tie is the differential run alone: look harder
     values = boundary_values() + random_values(rng, nrand)
     lits = literal_nodes() + random_literals(rng, nrand // 4)
     # ---- requests
